@@ -207,7 +207,13 @@ def make_historical_spec(st, idx, tier):
         hist.append(dict(b, results_dem=int(b["baseline_dem"] * f) + int(rng.integers(0, 20)),
                          results_gop=int(b["baseline_gop"] * float(rng.uniform(0.7, 1.4))) + int(rng.integers(0, 20))))
         hist[-1]["results_turnout"] = hist[-1]["results_dem"] + hist[-1]["results_gop"] + int(rng.integers(0, 30))
-    nonrep = [r["geographic_unit_fips"] for r in live if r["percent_expected_vote"] < thr]
+    # some of today's units did not exist in the historical election (no row in its preprocessed data)
+    gone = {r["geographic_unit_fips"] for r in hist if chance(rng, 0.1)}
+    if len(gone) < len(hist) - 12:
+        hist = [r for r in hist if r["geographic_unit_fips"] not in gone]
+    else:
+        gone = set()
+    nonrep = [r["geographic_unit_fips"] for r in live if r["percent_expected_vote"] < thr and r["geographic_unit_fips"] not in gone]
     victim = choice(rng, nonrep) if nonrep else None
     aggs = ["postal_code"] + (["county_fips"] if chance(rng, 0.5) else [])
     return dict(kind="historical", world=world, live=live, hist=hist, victim=victim, ops=[],
